@@ -6,6 +6,7 @@ definition differ syntactically and the lemma fail.
 -/
 import RubatoModel.Async
 import RubatoModel.Fft
+import RubatoModel.SincTable
 import RubatoModel.FftUnitModel
 
 namespace Rubato.FormulaTie
@@ -207,6 +208,59 @@ theorem setRatioRelative_is_generated (s : AState ρ σ) (rel : ρ) (ramp : Bool
   ⟨rfl, rfl, rfl, rfl⟩
 
 end loops
+
+/-! ### interpolation.rs (tie G5): index / sub-index statements of the four `get_nearest_time(s)` functions -/
+
+/-- the model's `nearestTimes` is built from the regenerated `index` / `subindex` / `start` / `frac` statements, the
+regenerated first offsets, and the wrap blocks (one-sided for `get_nearest_time` and `get_nearest_times_2`, two-sided for
+`_3` / `_4`; their text is checked by the translator) -/
+theorem nearestTimes_is_generated (sint : SincInterp) (t : ρ) (factor : Nat) :
+    nearestTimes sint t factor =
+      (match sint with
+       | .nearest =>
+         let sub := Sinc.time_subindex t (factor : Int)
+         if sub ≥ (factor : Int) then [(Sinc.time_index t (factor : Int) + 1, sub - factor)]
+         else [(Sinc.time_index t (factor : Int), sub)]
+       | .linear =>
+         let sub := Sinc.times2_subindex t (factor : Int)
+         let sub1 := sub + 1
+         [(Sinc.times2_index t (factor : Int), sub),
+          if sub1 ≥ (factor : Int) then (Sinc.times2_index t (factor : Int) + 1, sub1 - factor)
+          else (Sinc.times2_index t (factor : Int), sub1)]
+       | .quadratic =>
+         let o := Sinc.nearestFirstOffset 3
+         [wrapSub (Sinc.times3_start t (factor : Int)) (Sinc.times3_frac t (factor : Int) + o) factor,
+          wrapSub (Sinc.times3_start t (factor : Int)) (Sinc.times3_frac t (factor : Int) + o + 1) factor,
+          wrapSub (Sinc.times3_start t (factor : Int)) (Sinc.times3_frac t (factor : Int) + o + 2) factor]
+       | .cubic =>
+         let o := Sinc.nearestFirstOffset 4
+         [wrapSub (Sinc.times4_start t (factor : Int)) (Sinc.times4_frac t (factor : Int) + o) factor,
+          wrapSub (Sinc.times4_start t (factor : Int)) (Sinc.times4_frac t (factor : Int) + o + 1) factor,
+          wrapSub (Sinc.times4_start t (factor : Int)) (Sinc.times4_frac t (factor : Int) + o + 2) factor,
+          wrapSub (Sinc.times4_start t (factor : Int)) (Sinc.times4_frac t (factor : Int) + o + 3) factor]) := by
+  cases sint <;> rfl
+
+/-! ### sinc.rs (tie G11): the sinc function, its argument in `make_sincs`, the polyphase layout -/
+
+section sincrs
+variable {σ : Type} [SNum ρ σ] [STrig σ]
+
+theorem sincFn_is_generated (v : σ) : sincFn (ρ := ρ) v = SincRs.sinc_fn (ρ := ρ) v := rfl
+
+theorem sincProto_is_generated (npoints factor : Nat) (fcut : ρ) (w : Window) (x : Nat) :
+    sincProto (σ := σ) npoints factor fcut w x =
+      Win.make_window_at (ρ := ρ) w (npoints * factor) x *
+        SincRs.sinc_fn (ρ := ρ) (SincRs.sinc_arg (ρ := ρ) x (npoints * factor) factor fcut) := rfl
+
+/-- the model reads `y[factor·p + (factor−1−s)]` for row `s`: that is the regenerated `sincs[factor − n − 1][p] = y[factor·p + n]`
+with `n = factor − 1 − s` -/
+theorem sincs_layout (factor p s : Nat) (hs : s < factor) :
+    SincRs.sincs_row factor p (factor - 1 - s) = s ∧
+    SincRs.sincs_src factor p (factor - 1 - s) = factor * p + (factor - 1 - s) := by
+  unfold SincRs.sincs_row SincRs.sincs_src
+  omega
+
+end sincrs
 
 /-! ### the synchronous (FFT) resamplers: block sizing and frame bookkeeping (`DivArith.ofNum ρ` = the `as f32` divisions
 as the translator emits them) -/
